@@ -1,8 +1,254 @@
 (* Proofs about the C27 model (Http1Resp.v / RunC27.v). *)
-From Coq Require Import List ZArith Bool Lia.
+From Coq Require Import List ZArith Bool Lia ZifyBool.
 From Bfe Require Import lib.Val lib.Bytes model.Http1Resp run.RunC27.
 Import ListNotations.
 Open Scope Z_scope.
+
+(* ---------- bytes / lines (adapted from the request-side proofs of C25) ---------- *)
+Definition no_crlf (l : bytes) : bool := forallb (fun b => negb ((b =? 13) || (b =? 10))) l.
+Lemma tchar_range b : is_tchar b = true -> 33 <= b <= 126 /\ b <> 58.
+Proof. unfold is_tchar, is_digit. cbn [existsb]. lia. Qed.
+Lemma forallb_impl {A} (P Q : A -> bool) l :
+  (forall x, P x = true -> Q x = true) -> forallb P l = true -> forallb Q l = true.
+Proof.
+  intros H. induction l as [|x l IH]; simpl; [reflexivity|]. intro E. apply andb_true_iff in E. destruct E as [E1 E2].
+  rewrite (H _ E1), (IH E2). reflexivity.
+Qed.
+Lemma split_crlf_app l r : no_crlf l = true -> split_crlf (l ++ 13 :: 10 :: r) = Some (l, r).
+Proof.
+  unfold no_crlf. induction l as [|x l IH]; intro H.
+  - reflexivity.
+  - cbn [forallb] in H. apply andb_true_iff in H. destruct H as [H1 H2].
+    cbn [app split_crlf]. destruct (x =? 13) eqn:E13; [cbn in H1; discriminate|].
+    destruct (x =? 10) eqn:E10; [rewrite orb_true_r in H1; discriminate|].
+    rewrite (IH H2). reflexivity.
+Qed.
+Definition nosep (c : Z) (a : bytes) : bool := forallb (fun b => negb (b =? c)) a.
+Lemma index_byte_app c k r : nosep c k = true -> index_byte c (k ++ c :: r) = Some (length k).
+Proof.
+  unfold nosep. induction k as [|x k IH]; intro H.
+  - cbn. rewrite Z.eqb_refl. reflexivity.
+  - cbn [forallb] in H. apply andb_true_iff in H. destruct H as [H1 H2]. apply negb_true_iff in H1.
+    cbn [app index_byte length]. rewrite H1, (IH H2). reflexivity.
+Qed.
+Lemma token_nosep c k : is_token k = true -> (c < 33 \/ c = 58 \/ 126 < c) -> nosep c k = true.
+Proof.
+  intros Ht Hc. unfold nosep. destruct k as [|x k]; [discriminate|]. unfold is_token in Ht.
+  apply (forallb_impl is_tchar); [|exact Ht]. intros b Hb. apply tchar_range in Hb. lia.
+Qed.
+Lemma token_no_crlf k : is_token k = true -> no_crlf k = true.
+Proof.
+  intro Ht. unfold no_crlf. destruct k as [|x k]; [discriminate|]. unfold is_token in Ht.
+  apply (forallb_impl is_tchar); [|exact Ht]. intros b Hb. apply tchar_range in Hb. lia.
+Qed.
+Lemma no_crlf_app a b : no_crlf (a ++ b) = no_crlf a && no_crlf b.
+Proof. unfold no_crlf. apply forallb_app. Qed.
+
+(* ---------- one header line, a block of header lines ---------- *)
+Definition line (kv : bytes * bytes) : bytes := fst kv ++ colon_sp ++ snd kv ++ crlf.
+Definition good_kv (kv : bytes * bytes) : bool := is_token (fst kv) && no_crlf (snd kv).
+Definition parsed (kv : bytes * bytes) : bytes * bytes := (fst kv, trim is_space (snd kv)).
+Lemma strict_field_line k v : is_token k = true -> strict_field (k ++ colon_sp ++ v) = Some (k, trim is_space v).
+Proof.
+  intro Ht. unfold strict_field, colon_sp. cbn [app].
+  rewrite (index_byte_app 58 k (32 :: v)) by (apply token_nosep; [exact Ht|lia]).
+  rewrite firstn_app, Nat.sub_diag, firstn_all. cbn [firstn]. rewrite app_nil_r, Ht.
+  replace (skipn (S (length k)) (k ++ 58 :: 32 :: v)) with (32 :: v); [reflexivity|].
+  clear Ht. induction k as [|x k IH]; [reflexivity|]. cbn [length app]. rewrite skipn_cons. exact IH.
+Qed.
+Lemma strict_fields_lines : forall L fuel acc B,
+  forallb good_kv L = true -> (length L < fuel)%nat ->
+  strict_fields fuel (concat (map line L) ++ 13 :: 10 :: B) acc = Some (rev acc ++ map parsed L, B).
+Proof.
+  induction L as [|kv L IH]; intros fuel acc B Hg Hf.
+  - destruct fuel as [|f]; [inversion Hf|]. cbn. rewrite app_nil_r. reflexivity.
+  - destruct fuel as [|f]; [inversion Hf|].
+    cbn [forallb] in Hg. apply andb_true_iff in Hg. destruct Hg as [Hk HL].
+    unfold good_kv in Hk. apply andb_true_iff in Hk. destruct Hk as [Hk Hv].
+    cbn [map concat]. unfold line at 1. unfold crlf.
+    replace (((fst kv ++ colon_sp ++ snd kv ++ [13; 10]) ++ concat (map line L)) ++ 13 :: 10 :: B)
+      with ((fst kv ++ colon_sp ++ snd kv) ++ 13 :: 10 :: (concat (map line L) ++ 13 :: 10 :: B)).
+    2:{ rewrite <- !app_assoc. reflexivity. }
+    cbn [strict_fields]. rewrite split_crlf_app.
+    2:{ rewrite !no_crlf_app, (token_no_crlf _ Hk), Hv. reflexivity. }
+    destruct (fst kv ++ colon_sp ++ snd kv) as [|c l] eqn:El.
+    { destruct (fst kv); [discriminate|discriminate]. }
+    rewrite <- El, (strict_field_line _ _ Hk).
+    rewrite IH; [|exact HL|simpl in Hf; lia].
+    cbn [rev map]. unfold parsed at 2. rewrite <- app_assoc. reflexivity.
+Qed.
+
+(* ---------- decimal text round trip ---------- *)
+Definition dval (l : bytes) (a : Z) : Z := fold_left (fun a b => a * 10 + (b - 48)) l a.
+Lemma dval_acc l : forall a, dval l a = a * 10 ^ (blen l) + dval l 0.
+Proof.
+  unfold blen. induction l as [|d l IH]; intro a; cbn [dval fold_left length].
+  - simpl. lia.
+  - fold (dval l (a * 10 + (d - 48))). fold (dval l (0 * 10 + (d - 48))).
+    rewrite (IH (a * 10 + (d - 48))), (IH (0 * 10 + (d - 48))).
+    rewrite Nat2Z.inj_succ, Z.pow_succ_r by lia. ring.
+Qed.
+Lemma dec_digits_spec : forall fuel n acc,
+  0 <= n < 10 ^ (Z.of_nat fuel) -> (0 < fuel)%nat -> forallb is_digit acc = true ->
+  forallb is_digit (dec_digits fuel n acc) = true /\
+  dval (dec_digits fuel n acc) 0 = n * 10 ^ (blen acc) + dval acc 0 /\
+  dec_digits fuel n acc <> [].
+Proof.
+  induction fuel as [|f IH]; intros n acc Hn Hf Ha; [inversion Hf|].
+  cbn [dec_digits].
+  assert (Hd : is_digit (48 + n mod 10) = true).
+  { unfold is_digit. pose proof (Z.mod_pos_bound n 10). lia. }
+  assert (Hv : dval ((48 + n mod 10) :: acc) 0 = (n mod 10) * 10 ^ (blen acc) + dval acc 0).
+  { cbn [dval fold_left]. fold (dval acc (0 * 10 + (48 + n mod 10 - 48))). rewrite dval_acc.
+    replace (0 * 10 + (48 + n mod 10 - 48)) with (n mod 10) by lia. reflexivity. }
+  destruct (n / 10 =? 0) eqn:E.
+  - apply Z.eqb_eq in E. repeat split.
+    + cbn [forallb]. rewrite Hd, Ha. reflexivity.
+    + rewrite Hv. assert (Hnm : n = n mod 10) by (pose proof (Z.div_mod n 10); lia). rewrite <- Hnm. reflexivity.
+    + discriminate.
+  - apply Z.eqb_neq in E.
+    assert (Hn' : 0 <= n / 10 < 10 ^ Z.of_nat f).
+    { rewrite Nat2Z.inj_succ, Z.pow_succ_r in Hn by lia. split; [apply Z.div_pos; lia|].
+      apply Z.div_lt_upper_bound; lia. }
+    assert (Hf' : (0 < f)%nat).
+    { destruct f; [|lia]. simpl in Hn'. assert (n / 10 = 0) by lia. congruence. }
+    destruct (IH (n / 10) ((48 + n mod 10) :: acc) Hn' Hf') as [I1 [I2 I3]].
+    { cbn [forallb]. rewrite Hd, Ha. reflexivity. }
+    repeat split; [exact I1| |exact I3].
+    rewrite I2, Hv. unfold blen. cbn [length]. rewrite Nat2Z.inj_succ, Z.pow_succ_r by lia.
+    assert (Hdm : n = 10 * (n / 10) + n mod 10) by (apply Z.div_mod; lia).
+    set (q := n / 10) in *. set (m := n mod 10) in *. set (p := 10 ^ Z.of_nat (length acc)).
+    replace (n * p) with ((10 * q + m) * p) by (rewrite <- Hdm; reflexivity). ring.
+Qed.
+Lemma parse_dec_dec_of_Z n : 0 <= n < 10 ^ 80 ->
+  parse_dec (dec_of_Z n) = Some n /\ forallb is_digit (dec_of_Z n) = true.
+Proof.
+  intro Hn. unfold dec_of_Z. destruct (n <? 0) eqn:E; [lia|].
+  destruct (dec_digits_spec 80 n [] ltac:(simpl; lia) ltac:(lia) eq_refl) as [H1 [H2 H3]].
+  split; [|exact H1]. unfold parse_dec. destruct (dec_digits 80 n []) as [|z0 l0] eqn:Ed; [congruence|].
+  rewrite H1. f_equal. change (dval (z0 :: l0) 0 = n). rewrite H2. cbn. lia.
+Qed.
+Lemma trim_left_head f x r : f x = false -> trim_left f (x :: r) = x :: r.
+Proof. intro H. cbn. rewrite H. reflexivity. Qed.
+Lemma trim_id f l : forallb (fun b => negb (f b)) l = true -> trim f l = l.
+Proof.
+  intro H. unfold trim, trim_right.
+  assert (H1 : trim_left f l = l).
+  { destruct l as [|x r]; [reflexivity|]. cbn [forallb] in H. apply andb_true_iff in H. destruct H as [H _].
+    apply negb_true_iff in H. apply trim_left_head. exact H. }
+  rewrite H1.
+  assert (H2 : forallb (fun b => negb (f b)) (rev l) = true).
+  { apply forallb_forall. intros x Hx. apply in_rev in Hx. revert x Hx. apply forallb_forall. exact H. }
+  destruct (rev l) as [|x r] eqn:Er.
+  - cbn. destruct l; [reflexivity|]. apply (f_equal (@length Z)) in Er. rewrite rev_length in Er. discriminate.
+  - cbn [forallb] in H2. apply andb_true_iff in H2. destruct H2 as [H2 _]. apply negb_true_iff in H2.
+    rewrite (trim_left_head _ _ _ H2). rewrite <- Er. apply rev_involutive.
+Qed.
+Lemma digits_trim f l : (forall b, is_digit b = true -> f b = false) -> forallb is_digit l = true -> trim f l = l.
+Proof.
+  intros Hf H. apply trim_id. apply (forallb_impl is_digit); [|exact H].
+  intros b Hb. rewrite (Hf b Hb). reflexivity.
+Qed.
+
+(* ---------- hexadecimal chunk-size round trip ---------- *)
+Definition hv (l : bytes) (a : Z) : Z := fold_left (fun a b => a * 16 + hexv b) l a.
+Lemma hv_acc l : forall a, hv l a = a * 16 ^ (blen l) + hv l 0.
+Proof.
+  unfold blen. induction l as [|d l IH]; intro a; cbn [hv fold_left length].
+  - simpl. lia.
+  - fold (hv l (a * 16 + hexv d)). fold (hv l (0 * 16 + hexv d)).
+    rewrite (IH (a * 16 + hexv d)), (IH (0 * 16 + hexv d)).
+    rewrite Nat2Z.inj_succ, Z.pow_succ_r by lia. ring.
+Qed.
+Lemma hex_digit_ok d : 0 <= d < 16 -> ishex (hex_digit d) = true /\ hexv (hex_digit d) = d /\ hex_digit d <> 13 /\ hex_digit d <> 10.
+Proof.
+  intro H. unfold ishex, hexv, hex_digit, is_digit. destruct (d <? 10) eqn:E.
+  - replace (48 + d <=? 57) with true by lia. repeat split; lia.
+  - replace (87 + d <=? 57) with false by lia. replace (87 + d <=? 70) with false by lia. repeat split; lia.
+Qed.
+Lemma hex_digits_spec : forall fuel n acc (k : nat),
+  0 <= n < 16 ^ (Z.of_nat k) -> (0 < k <= fuel)%nat -> forallb ishex acc = true -> no_crlf acc = true ->
+  forallb ishex (hex_digits fuel n acc) = true /\ hv (hex_digits fuel n acc) 0 = n * 16 ^ (blen acc) + hv acc 0 /\ hex_digits fuel n acc <> [] /\ (length (hex_digits fuel n acc) <= length acc + k)%nat /\ no_crlf (hex_digits fuel n acc) = true.
+Proof.
+  induction fuel as [|f IH]; intros n acc k Hn Hk Ha Hc; [lia|].
+  cbn [hex_digits].
+  assert (Hm : 0 <= n mod 16 < 16) by (apply Z.mod_pos_bound; lia).
+  destruct (hex_digit_ok _ Hm) as [D1 [D2 [D3 D4]]].
+  assert (Hv : hv (hex_digit (n mod 16) :: acc) 0 = (n mod 16) * 16 ^ (blen acc) + hv acc 0).
+  { cbn [hv fold_left]. fold (hv acc (0 * 16 + hexv (hex_digit (n mod 16)))). rewrite hv_acc, D2.
+    replace (0 * 16 + n mod 16) with (n mod 16) by lia. reflexivity. }
+  assert (Hc' : no_crlf (hex_digit (n mod 16) :: acc) = true).
+  { unfold no_crlf in *. cbn [forallb]. rewrite Hc, andb_true_r.
+    apply negb_true_iff. apply orb_false_iff. split; apply Z.eqb_neq; assumption. }
+  destruct (n / 16 =? 0) eqn:E.
+  - apply Z.eqb_eq in E. repeat split.
+    + cbn [forallb]. rewrite D1, Ha. reflexivity.
+    + rewrite Hv. assert (Hnm : n = n mod 16) by (pose proof (Z.div_mod n 16); lia). rewrite <- Hnm. reflexivity.
+    + discriminate.
+    + cbn [length]. lia.
+    + exact Hc'.
+  - apply Z.eqb_neq in E.
+    destruct k as [|k']; [lia|].
+    assert (Hn' : 0 <= n / 16 < 16 ^ Z.of_nat k').
+    { rewrite Nat2Z.inj_succ, Z.pow_succ_r in Hn by lia. split; [apply Z.div_pos; lia|].
+      apply Z.div_lt_upper_bound; lia. }
+    assert (Hk' : (0 < k' <= f)%nat).
+    { split; [|lia]. destruct k'; [|lia]. simpl in Hn'. assert (n / 16 = 0) by lia. congruence. }
+    destruct (IH (n / 16) (hex_digit (n mod 16) :: acc) k' Hn' Hk') as [I1 [I2 [I3 [I4 I5]]]].
+    { cbn [forallb]. rewrite D1, Ha. reflexivity. }
+    { exact Hc'. }
+    repeat split; [exact I1| |exact I3| |exact I5].
+    + rewrite I2, Hv. unfold blen. cbn [length]. rewrite Nat2Z.inj_succ, Z.pow_succ_r by lia.
+      assert (Hdm : n = 16 * (n / 16) + n mod 16) by (apply Z.div_mod; lia).
+      set (q := n / 16) in *. set (m := n mod 16) in *. set (p := 16 ^ Z.of_nat (length acc)).
+      replace (n * p) with ((16 * q + m) * p) by (rewrite <- Hdm; reflexivity). ring.
+    + cbn [length] in I4. lia.
+Qed.
+Lemma parse_hex_line_hex_of_Z n : 0 <= n < 16 ^ 16 ->
+  parse_hex_line (hex_of_Z n) = Some n /\ no_crlf (hex_of_Z n) = true.
+Proof.
+  intro Hn. unfold hex_of_Z.
+  destruct (hex_digits_spec 20 n [] 16 ltac:(simpl; lia) ltac:(lia) eq_refl eq_refl) as [H1 [H2 [H3 [H4 H5]]]].
+  split; [|exact H5]. unfold parse_hex_line.
+  destruct (hex_digits 20 n []) as [|z0 l0] eqn:Ed; [congruence|].
+  cbn [length] in H4. rewrite H1.
+  replace (Z.of_nat (length (z0 :: l0)) <=? 16) with true by (cbn [length]; lia).
+  cbn [andb]. change (fold_left (fun a b : Z => a * 16 + hexv b) (z0 :: l0) 0) with (hv (z0 :: l0) 0).
+  rewrite H2. cbn. f_equal. lia.
+Qed.
+Lemma skipn_app_len {A} (a b : list A) : skipn (length a) (a ++ b) = b.
+Proof. induction a as [|x a IH]; [reflexivity|]. cbn [length app]. rewrite skipn_cons. exact IH. Qed.
+Lemma firstn_app_len {A} (a b : list A) : firstn (length a) (a ++ b) = a.
+Proof. induction a as [|x a IH]; [reflexivity|]. cbn [length app firstn]. rewrite IH. reflexivity. Qed.
+
+(* what the chunkWriter wrote for a list of non-empty writes decodes to their concatenation, whatever follows *)
+Lemma strict_chunks_written : forall ws fuel acc t,
+  forallb (fun d => negb (is_empty d) && (blen d <? 16 ^ 16)) ws = true -> (length ws < fuel)%nat ->
+  strict_chunks fuel (concat (map write_chunk ws) ++ last_chunk ++ t) acc = Some (acc ++ concat ws, t, true).
+Proof.
+  induction ws as [|d ws IH]; intros fuel acc t Hb Hf.
+  - destruct fuel as [|f]; [inversion Hf|]. cbn. rewrite app_nil_r. reflexivity.
+  - cbn [forallb] in Hb. apply andb_true_iff in Hb. destruct Hb as [Hd Hws].
+    apply andb_true_iff in Hd. destruct Hd as [Hne Hlt].
+    destruct fuel as [|f]; [inversion Hf|].
+    destruct d as [|d0 d']; [discriminate|]. set (d := d0 :: d') in *.
+    assert (Hn : 0 <= blen d < 16 ^ 16) by (unfold blen in *; lia).
+    destruct (parse_hex_line_hex_of_Z _ Hn) as [Hp Hc].
+    cbn [map concat]. unfold write_chunk at 1. unfold crlf.
+    replace (((hex_of_Z (blen d) ++ [13; 10] ++ d ++ [13; 10]) ++ concat (map write_chunk ws)) ++ last_chunk ++ t)
+      with (hex_of_Z (blen d) ++ 13 :: 10 :: (d ++ 13 :: 10 :: (concat (map write_chunk ws) ++ last_chunk ++ t))).
+    2:{ rewrite <- !app_assoc. reflexivity. }
+    cbn [strict_chunks].
+    destruct (hex_of_Z (blen d) ++ 13 :: 10 :: d ++ 13 :: 10 :: concat (map write_chunk ws) ++ last_chunk ++ t) as [|c0 l0] eqn:El.
+    { destruct (hex_of_Z (blen d)); discriminate. }
+    rewrite <- El. rewrite (split_crlf_app _ _ Hc), Hp.
+    replace (blen d =? 0) with false by (unfold blen, d; cbn [length]; lia).
+    replace (blen (d ++ 13 :: 10 :: concat (map write_chunk ws) ++ last_chunk ++ t) <=? blen d) with false.
+    2:{ unfold blen. rewrite app_length. cbn [length]. lia. }
+    unfold blen. rewrite Nat2Z.id, skipn_app_len, firstn_app_len.
+    rewrite IH; [|exact Hws|simpl in Hf; lia].
+    cbn [concat]. rewrite <- app_assoc. reflexivity.
+Qed.
 
 (* the exchange as the pre-fix code performed it *)
 Definition old_exchange (c : c27in) : bytes :=
